@@ -1,6 +1,6 @@
 (* C16 non-vacuity: concrete inputs that meet the hypotheses of the theorems in
    Props.v and exercise the interesting branches (checked by vm_compute). *)
-From CJ Require Import Common.Base C16.Model C16.ProofsRead C16.ProofsHb C16.ProofsFc C16.ProofsReg C16.ProofsMat.
+From CJ Require Import Common.Base C16.Model C16.Concrete C16.ProofsRead C16.ProofsHb C16.ProofsFc C16.ProofsReg C16.ProofsMat.
 From Coq Require Import Lia.
 
 (* ---- (i) a script with partial reads, the bypass, an empty message and an error carrying data ---- *)
@@ -149,3 +149,17 @@ Example ex_labels :
   label_hello = unhex "636c69656e7448656c6c6f52616e646f6d46726f6d53656564" /\
   label_certs = unhex "636572747346726f6d53656564".
 Proof. vm_compute. auto. Qed.
+
+(* the concrete derivation on a 16-byte secret: the values seedtocert.go produces for it
+   (observed from the Go code; the check compares fresh ones on every run) *)
+Example ex_concrete_hello :
+  hello_random_conc (unhex "00112233445566778899aabbccddeeff")
+  = unhex "32f4bb76545d05043ad1b2bfae08c78f0353076cff4d4e4adee5e0c7".
+Proof. vm_compute. reflexivity. Qed.
+Example ex_concrete_client_key :
+  match certs_from_seed_conc (unhex "00112233445566778899aabbccddeeff") with
+  | Some (c1, c2) => (cm_d c1 =? 95012202899101622456394161801788781726703689307888598951196239159021068890826)
+                     && negb (cm_d c1 =? cm_d c2)
+  | None => false
+  end = true.
+Proof. vm_compute. reflexivity. Qed.
